@@ -20,4 +20,16 @@ impl<I, T, S> ReadWriteRawVec<I, T, S> {
         &&& forall|h: usize| self.holes.current@.contains(h) ==> h < self.vlen()
         &&& forall|k: usize| self.updated.current@.contains_key(k) ==> k < self.base.read_only.stored_len.v
     }
+    // the last committed state: which stored slots its overlay covers
+    pub open spec fn binv(&self) -> bool {
+        &&& forall|k: usize| self.updated.previous@.contains_key(k) ==> k < self.base.previous_stored_len
+        &&& self.base.read_only.stored_len.v <= self.base.previous_stored_len          // edits since the commit only shorten the stored part
+    }
+    // C20, strong form kept by commits and rollbacks: a stored position beyond the file is served by the overlay
+    pub open spec fn covered(&self, disk: Seq<T>) -> bool {
+        forall|i: usize| disk.len() <= i < self.base.read_only.stored_len.v ==> #[trigger] self.updated.current@.contains_key(i)
+    }
+    pub open spec fn prev_covered(&self, disk: Seq<T>) -> bool {
+        forall|i: usize| disk.len() <= i < self.base.previous_stored_len ==> #[trigger] self.updated.previous@.contains_key(i)
+    }
 }
